@@ -70,11 +70,17 @@ func failable(p *pg.Program) []string {
 			}
 		case "slice":
 			if it.Err {
-				// element 0 and element 1 of the default collection
+				// elements of the default collection
 				if it.Idx {
-					ids = append(ids, pg.ItemID(p.ID, k)+"#0", pg.ItemID(p.ID, k)+"#1")
+					ids = append(ids, pg.ItemID(p.ID, k)+"#0")
+					if !small(p) {
+						ids = append(ids, pg.ItemID(p.ID, k)+"#1")
+					}
 				} else {
-					ids = append(ids, pg.ItemID(p.ID, k)+"#7", pg.ItemID(p.ID, k)+"#8")
+					ids = append(ids, pg.ItemID(p.ID, k)+"#7")
+					if !small(p) {
+						ids = append(ids, pg.ItemID(p.ID, k)+"#8")
+					}
 				}
 			}
 		case "map":
@@ -108,13 +114,22 @@ func panickable(p *pg.Program) []string {
 		case "tasks":
 			ids = append(ids, pg.SubID(p.ID, k, 0))
 		case "slice":
-			if it.Idx {
+			switch {
+			case it.Idx && small(p):
+				ids = append(ids, pg.ItemID(p.ID, k)+"#0")
+			case it.Idx:
 				ids = append(ids, pg.ItemID(p.ID, k)+"#1")
-			} else {
+			case small(p):
+				ids = append(ids, pg.ItemID(p.ID, k)+"#7")
+			default:
 				ids = append(ids, pg.ItemID(p.ID, k)+"#8")
 			}
 		case "map":
-			ids = append(ids, pg.ItemID(p.ID, k)+"#2")
+			if small(p) {
+				ids = append(ids, pg.ItemID(p.ID, k)+"#1")
+			} else {
+				ids = append(ids, pg.ItemID(p.ID, k)+"#2")
+			}
 		}
 		if it.End != nil {
 			ids = append(ids, pg.EndID(p.ID, k))
@@ -122,6 +137,10 @@ func panickable(p *pg.Program) []string {
 	}
 	return ids
 }
+
+// small: programs with several items get one-element collections so that the
+// total number of jobs stays within exhaustive reach
+func small(p *pg.Program) bool { return p.Par != nil && len(p.Par.Items) >= 2 }
 
 func defaultColls(p *pg.Program, sc *genrt.Scenario) {
 	if p.Par == nil {
@@ -131,14 +150,85 @@ func defaultColls(p *pg.Program, sc *genrt.Scenario) {
 		switch it.Kind {
 		case "slice":
 			for len(sc.Colls) <= it.Coll {
-				sc.Colls = append(sc.Colls, []uint64{7, 8})
+				if small(p) {
+					sc.Colls = append(sc.Colls, []uint64{7})
+				} else {
+					sc.Colls = append(sc.Colls, []uint64{7, 8})
+				}
 			}
 		case "map":
 			for len(sc.Maps) <= it.Coll {
-				sc.Maps = append(sc.Maps, map[string]uint64{"1": 11, "2": 12})
+				if small(p) {
+					sc.Maps = append(sc.Maps, map[string]uint64{"1": 11})
+				} else {
+					sc.Maps = append(sc.Maps, map[string]uint64{"1": 11, "2": 12})
+				}
 			}
 		}
 	}
+}
+
+// jobCount is the number of scheduler jobs the scenario submits.
+func jobCount(p *pg.Program, sc *genrt.Scenario) int {
+	k := 0
+	if p.Flow != nil {
+		for _, t := range p.Flow.Tasks {
+			k++
+			if t.Pred != nil {
+				k++
+			}
+		}
+		return k
+	}
+	for _, it := range p.Par.Items {
+		switch it.Kind {
+		case "task":
+			k++
+		case "tasks":
+			k += it.Count
+		case "slice":
+			if it.Coll < len(sc.Colls) {
+				k += len(sc.Colls[it.Coll])
+			}
+		case "map":
+			if it.Coll < len(sc.Maps) {
+				k += len(sc.Maps[it.Coll])
+			}
+		}
+		if it.End != nil {
+			k++
+		}
+	}
+	return k
+}
+
+// sizeScenarios keeps the exploration exhaustive: scenarios with more than
+// maxK2 jobs run with one worker only (duplicates dropped).
+func sizeScenarios(p *pg.Program, scs []genrt.Scenario, maxK2 int) []genrt.Scenario {
+	seen := map[string]bool{}
+	var out []genrt.Scenario
+	for _, sc := range scs {
+		k := jobCount(p, &sc)
+		if sc.Instances > 1 {
+			k *= 2
+		}
+		if k > maxK2 && (sc.N == 0 || sc.N > 1) {
+			if sc.N == 0 && !((p.Flow != nil && p.Flow.Conc == "expr") || (p.Par != nil && p.Par.Conc == "expr")) {
+				if k > maxK2+1 {
+					continue // fixed concurrency in the program text: too large to explore, dropped
+				}
+			} else {
+				sc.N = 1
+			}
+		}
+		key := sc.String()
+		if seen[key] {
+			continue
+		}
+		seen[key] = true
+		out = append(out, sc)
+	}
+	return out
 }
 
 func base(p *pg.Program, n int) genrt.Scenario {
